@@ -154,6 +154,9 @@ func GenOT(w *World, maxEdits int, opts ...string) *Scenario {
 		}
 		key := store.Key{Group: "", Kind: src.Kind, Namespace: nsMain, Name: src.Name}
 		val := fmt.Sprintf("%s%d", string(src.Name[len(src.Name)-1]), i+1)
+		if s.Chance(1, 4, "empty-value") {
+			val = "" // a value going back to empty must reach the target like any other change
+		}
 		switch s.Weighted([]int{4, 2, 1, 1}, "ot-op") {
 		case 0:
 			sc.UserOps = append(sc.UserOps, UserOp{Label: "set " + src.Name + "=" + val, Do: func(w *World) {
